@@ -2,26 +2,28 @@
     per file in container order; a file of size 0 consumes one hash and gets no group; at the end
     the number of hashes consumed must equal the number of hashes present.
 
-    [sigInfo.Hashes[hashIndex : hashIndex+numBlocks]] panics when the upper bound exceeds the
-    slice's capacity; the model says [HiPanic] when it exceeds the *length* (that the capacity of
-    an appended slice can be larger, and what the malformed cases do, belongs to C10).
+    Before slicing [sigInfo.Hashes[hashIndex : hashIndex+numBlocks]] the code checks
+    [hashIndex+numBlocks > len(sigInfo.Hashes)] and returns an error (repo commit 6a06397 "fix:
+    ComputeHashInfo checks the number of hashes before slicing them"; before it the slice
+    expression panicked when the bound exceeded the capacity): a signature with fewer hashes
+    than the container needs is [HiErr], like one with too many.  There is no panic outcome.
     [pathToFileIndex] maps a path to the last index carrying it: with distinct paths (any walked
     container) it is the position of the file, which is what the model uses.
     Definitions only; proofs in Sig/HashInfoProofs.v. *)
 From Wharf Require Import Base.Prelude Sig.Sign Sig.SigFile.
 Local Open Scope N_scope.
 
-Inductive hi_result (X : Type) := HiOk (groups : list (option (list X))) | HiErr | HiPanic.
+Inductive hi_result (X : Type) := HiOk (groups : list (option (list X))) | HiErr.
 Arguments HiOk {X}.
 Arguments HiErr {X}.
-Arguments HiPanic {X}.
 
 Section HashInfo.
   Context {X : Type}.
   Variable bs : N.
 
-  (** the loop over the files: [None] = slice bounds out of range; otherwise the groups by file
-      position ([None] for a file of size 0: no map entry) and the final hashIndex *)
+  (** the loop over the files: [None] = the error return inside the loop ("expected to have at
+      least %d hashes in signature"); otherwise the groups by file position ([None] for a file
+      of size 0: no map entry) and the final hashIndex *)
   Fixpoint hi_loop (sizes : list N) (hashes : list X) (hashIndex : N) : option (list (option (list X)) * N) :=
     match sizes with
     | [] => Some ([], hashIndex)
@@ -33,7 +35,7 @@ Section HashInfo.
         end
       else
         let nb := num_blocks bs size in
-        if N.of_nat (length hashes) <? hashIndex + nb then None
+        if N.of_nat (length hashes) <? hashIndex + nb then None      (* hashIndex+numBlocks > len(sigInfo.Hashes) *)
         else
           match hi_loop r hashes (hashIndex + nb) with
           | Some (gs, ix) => Some (Some (firstn (N.to_nat nb) (skipn (N.to_nat hashIndex) hashes)) :: gs, ix)
@@ -43,7 +45,7 @@ Section HashInfo.
 
   Definition compute_hash_info (sizes : list N) (hashes : list X) : hi_result X :=
     match hi_loop sizes hashes 0 with
-    | None => HiPanic
+    | None => HiErr
     | Some (gs, ix) => if ix =? N.of_nat (length hashes) then HiOk gs else HiErr
     end.
 End HashInfo.
